@@ -257,7 +257,11 @@ def sweep_pairs(tier):
     pmax = 40
     if tier == "quick":
         return _float_boundary_pairs(pmax) + [(17, 16), (20, 3), (24, 24), (19, 36), (33, 5)]
-    return [(P, K) for P in range(17, pmax + 1) for K in range(1, min(36, P + 2) + 1)]
+    out = []
+    for P in (17, 18, 19, 23, 24, 27, 32, 36, 40):
+        ks = range(1, min(36, P + 2) + 1) if P in (18, 27, 36) else sorted({1, 2, 3, 5, 7, P // 2, P - 1, P, P + 2})
+        out += [(P, K) for K in ks if K <= 36]
+    return out
 
 
 def big_model(nsites, cplx):
@@ -346,8 +350,8 @@ def pre_campaign(tier, seed):
                 hashes.append(M.case_hash(case))
     finally:
         ctx.close()
-    cov = {"exhaustive_subspace": {"exhaustive": tier == "thorough" and not failures and not inconclusive,
-                                   "what": "split container computation on 17..40 ranks: " + ("every (ranks P, stored elements K) with K <= min(36, P+2)" if tier == "thorough" else
+    cov = {"exhaustive_subspace": {"exhaustive": False,
+                                   "what": "split container computation on 17..40 ranks: " + ("ranks P in {18,27,36} with every K <= 36 stored elements and P in {17,19,23,24,32,40} with K in {1,2,3,5,7,P/2,P-1,P,P+2}" if tier == "thorough" else
                                            "the pairs at which the floating-point colour assignment of the ranks is irregular, plus five others") +
                                            "; fixed two-site model without S_z conservation, all stored components non-zero",
                                    "pairs": n - nbig, "inconclusive": inconclusive,
